@@ -79,6 +79,7 @@ type Config struct {
 	GateBackend    bool
 	AckMode        int // backend ack: 0 synchronous, 1 late (driver releases), 2 never
 	SockBuf        int // >0: bounded broker->peer socket buffer (not used yet)
+	ParkN          int // >0: park broker goroutines at gomqtt lock sites with probability 1/ParkN
 }
 
 func DefaultConfig() Config {
@@ -142,6 +143,7 @@ func NewWorld(cfg Config, seed uint64, res *core.Result) *World {
 	w.Engine.ReadLimit = cfg.ReadLimit
 	w.Engine.MaxWriteDelay = cfg.WriteDelay
 	w.Server = newSimServer()
+	core.ParkStart(seed, cfg.ParkN)
 	w.Engine.Accept(w.Server)
 	return w
 }
@@ -813,6 +815,13 @@ func (w *World) progress(releaseAcks bool) bool {
 		close(pk.ch)
 		did = true
 	}
+	if core.ParkedCount() > 0 && (!did || w.Sched.Chance(1, 4)) {
+		// goroutines parked at lock sites stay parked while anything else can
+		// still happen (that is the point); they are released one at a time
+		if core.ReleaseParked(w.Sched) {
+			did = true
+		}
+	}
 	if releaseAcks && len(w.lateAcks) > 0 {
 		la := w.lateAcks[0]
 		w.lateAcks = w.lateAcks[1:]
@@ -875,6 +884,9 @@ func (w *World) Nudge(n int) {
 				w.deliverToPeer(p, w.chunk(k))
 			}
 		}
+		if core.ParkedCount() > 0 && w.Sched.Chance(1, 3) {
+			core.ReleaseParked(w.Sched)
+		}
 		if len(w.parked) > 0 && w.Sched.Chance(1, 2) {
 			j := w.Sched.Intn(len(w.parked))
 			pk := w.parked[j]
@@ -894,6 +906,8 @@ func (w *World) Advance(d time.Duration) {
 
 // Teardown ends everything and takes the goroutine census.
 func (w *World) Teardown() []string {
+	w.Res.Count("lock_site_parks", int64(core.ParkTotal()))
+	core.ParkStop()
 	for _, p := range w.Peers[1:] {
 		if !p.EOF {
 			p.Link.Cut()
